@@ -158,10 +158,26 @@ def instances(rng, cls, n_tuples, max_variants):
                 else:
                     vals.append(0)
             try:
-                ins = T.instantiate(cls, vi, vals)
+                ins = build(cls, iter(path), iter(zip(lv, vals)))
             except Exception:   # noqa: BLE001
                 continue
             yield '/'.join(path), vals, ins
+
+
+def build(cls, path_it, val_it):
+    """instance of cls for the composite-option choices in path_it (DFS order) and the leaf values in val_it"""
+    args = []
+    for fa in cls.syntax.formal_arguments:
+        c = fa._cls
+        if fa.is_constructor:
+            name = next(path_it)
+            opts = list(c) if isinstance(c, tuple) else [c]
+            opt = [o for o in opts if o.__name__ == name][0]
+            args.append(build(opt, path_it, val_it))
+        else:
+            leaf, v = next(val_it)
+            args.append(T.real_reg(leaf['cls'], v) if leaf['kind'] == 'reg' else v if leaf['kind'] == 'imm' else 'lab')
+    return cls(*args)
 
 
 def run_llvm(args, prologue, lines, timeout=300):
@@ -196,24 +212,45 @@ def run_llvm(args, prologue, lines, timeout=300):
 DISASM_ARGS = {'x86_64': ['--output-asm-variant=1']}
 
 
-def disasm_many(args, extra, blobs):
-    """llvm-mc --disassemble, one process per distinct byte string (thread pool); -> {bytes: text | None}"""
-    from concurrent.futures import ThreadPoolExecutor
+def _disasm_stream(args, extra, blobs):
+    """one llvm-mc --disassemble run over the concatenation; -> list of texts, or None when the output cannot be
+    cut back exactly at the item boundaries (invalid encodings, instructions spanning two items)"""
+    inp = '\n'.join(' '.join('0x%02x' % x for x in b) for b in blobs) + '\n'
+    p = subprocess.run(['timeout', '120', LLVM_MC, '--disassemble', '-show-encoding'] + args + extra, input=inp,
+                       stdout=subprocess.PIPE, stderr=subprocess.PIPE, text=True)
+    if 'warning' in p.stderr or 'error' in p.stderr or p.returncode != 0:
+        return None
+    items = []
+    for l in p.stdout.splitlines():
+        m = re.search(r'^(.*?)\s*[#@;/|]+\s*encoding: \[(.*)\]', l)
+        if m:
+            items.append(re.sub(r'\s+', ' ', m.group(1).strip()))
+    # (the printed encodings drop redundant prefixes, so lengths cannot be used to cut the stream)
+    if len(blobs) == 1:
+        return [' ; '.join(items)] if items else None
+    if len(items) != len(blobs):
+        return None
+    return items
 
-    def one(b):
-        p = subprocess.run(['timeout', '20', LLVM_MC, '--disassemble'] + args + extra,
-                           input=' '.join('0x%02x' % x for x in b) + '\n',
-                           stdout=subprocess.PIPE, stderr=subprocess.PIPE, text=True)
-        if 'invalid instruction encoding' in p.stderr or 'warning' in p.stderr:
-            return b, None
-        lines = [re.sub(r'\s+', ' ', l.strip()) for l in p.stdout.splitlines()]
-        lines = [l for l in lines if l and not l.startswith('.')]
-        return b, ' ; '.join(lines) if lines else None
+
+def disasm_many(args, extra, blobs, chunk=64):
+    """-> {bytes: llvm disassembly text | None}; batches, falling back to halving on chunks that do not cut cleanly"""
     out = {}
     todo = sorted(set(blobs))
-    with ThreadPoolExecutor(max_workers=6) as ex:
-        for b, t in ex.map(one, todo):
-            out[b] = t
+
+    def go(lst):
+        if not lst:
+            return
+        r = _disasm_stream(args, extra, lst)
+        if r is not None:
+            out.update(zip(lst, r))
+        elif len(lst) == 1:
+            out[lst[0]] = None
+        else:
+            go(lst[:len(lst) // 2])
+            go(lst[len(lst) // 2:])
+    for i in range(0, len(todo), chunk):
+        go(todo[i:i + chunk])
     return out
 
 
